@@ -13,7 +13,7 @@ CONSTANTS
   WaitSteps = {2, 12}
   ReadErrChoice = {TRUE, FALSE}
   GiveUpErrChoice = {TRUE, FALSE}
-  Depth = 5
+  Depth = 4
   Thin = 1
 CONSTRAINT Bound
 ACTION_CONSTRAINT EmitStep
